@@ -314,6 +314,45 @@ PROPS["C42"] = drive_plan("exploration", "c42", ["--histories", 5], ["--historie
     "payload-reusing updates are applied to un-chunked documents only (for chunked ones the content is already lost before the vacuum: known C07 finding)"])
 
 
+def _c29_run(pid, tier, seed, scratch):
+    bindir = main_bins()
+    mvdrive = os.path.join(bindir, "mvdrive")
+    # one capsule size per process: key derivation (Argon2id, 64 MiB) dominates, ~0.15 s per unlock
+    if tier == "quick":
+        groups = ["4", "5", "1000", "1048575", "1048576", "1048577", "2097159", "70000"]
+        extra = []
+    else:
+        groups = ["4", "5", "999", "1048575", "1048576", "1048577", "2097152", "2097159", "3145728", "3145733", "0", "77", "524288", "1500000", "2500000", "65536"]
+        extra = ["--thorough"]
+    from concurrent.futures import ThreadPoolExecutor
+
+    def one(i_s):
+        i, s = i_s
+        d = os.path.join(scratch, f"cap-{i}")
+        os.makedirs(d, exist_ok=True)
+        return C.run_monitor([mvdrive, "c29", "--seed", str(seed * 1000 + i), "--sizes", s, "--scratch", d] + extra, os.path.join(scratch, f"cap-{i}.json"), 3400, cwd=d)
+    reports, notes = [], []
+    with ThreadPoolExecutor(max_workers=C.CORES) as ex:
+        for r, n in ex.map(one, list(enumerate(groups))):
+            if r:
+                reports.append(r)
+            else:
+                notes.append(n)
+    return reports, notes, {"assumptions": ["encryption feature build; password-based Argon2id + AES-256-GCM as shipped", "an accepted modification is reported in two classes: output differs from f / output identical to f"]}
+
+
+PROPS["C29"] = {"level": "fault_enumeration", "run": _c29_run, "design": "C29"}
+
+
+import crashchecks  # noqa: E402
+
+import crashchecks2  # noqa: E402
+
+PROPS["C02"] = {"level": "fault_enumeration", "run": crashchecks.c02, "design": "C02"}
+PROPS["C03"] = {"level": "fault_enumeration", "run": crashchecks2.c03, "design": "C03"}
+PROPS["C04"] = {"level": "fault_enumeration", "run": crashchecks2.c04, "design": "C04"}
+
+
 def _c19_sidecar(pid, tier, seed, scratch, bindir):
     return C.run_sharded(os.path.join(bindir, "mvdrive"), "sidecar", ["--rounds", 2 if tier == "quick" else 20], 2 if tier == "quick" else 8, seed, scratch)
 
@@ -344,6 +383,14 @@ def replay(pid, spec, path, scratch, t0):
         p = subprocess.run([mvpure, "c32deep", "--kind", detail["kind"], "--depth", str(detail["depth"])], env=C.ENV)
         if p.returncode != 0:
             print(f"VIOLATION property={pid} replay={path}")
+            return 1
+        print(f"[{pid}] replay: not reproduced")
+        return 0
+    elif mode == "crash":
+        key = crashchecks.replay_crash(pid, detail, scratch)
+        if key:
+            print(f"VIOLATION property={pid} replay={path}")
+            print(f"  key={key}")
             return 1
         print(f"[{pid}] replay: not reproduced")
         return 0
